@@ -87,7 +87,7 @@ func (r *Runner) FirstRead(kind string, last1 []types.Transaction, last2 []types
 	}
 	r.Stats["first-read:"+kind]++
 	// the lists, read right after
-	v1, v2 := cm.PoolTransactions(), cm.V2PoolTransactions()
+	v1, v2 := r.Pool() // (recorded as a query when the step's own observation was deferred)
 	e1, e2 := map[types.TransactionID][]byte{}, map[types.TransactionID][]byte{}
 	for _, x := range v1 {
 		e1[x.ID()] = EncV1(x)
